@@ -255,16 +255,10 @@ fn prefix_without_digits(text: &str) -> bool {
     seps > 0
 }
 
-const KNOWN_PREFIX: &str = "c05-prefix-without-digits";
-const KNOWN_ASSERT: &str = "c05-dot-separator-debug-assert";
-
-/// the known class of process failures: lexical's debug assertion on a separator after the dot
-fn known_panic(text: &str, message: &str) -> Option<&'static str> {
-    if text.contains("._") && message.contains("digit_separator") {
-        Some(KNOWN_ASSERT)
-    } else {
-        None
-    }
+/// no known class is open for this property (both findings of the first run were fixed:
+/// base prefix without digits, lexical's debug assertion after `._`)
+fn known_panic(_text: &str, _message: &str) -> Option<&'static str> {
+    None
 }
 
 fn lex_case(run: &mut Run, text: &str, family: &str) {
@@ -297,7 +291,10 @@ fn lex_case(run: &mut Run, text: &str, family: &str) {
             LexObs::Err | LexObs::Panic(_) => "err",
         }
     ));
-    let known = if prefix_without_digits(text) && obs != LexObs::Err { Some(KNOWN_PREFIX) } else { None };
+    let known = None;
+    if prefix_without_digits(text) {
+        run.count("lex:regression:prefix-without-digits");
+    }
     let nontrivial = obs != LexObs::Err && text.len() > 1;
     run.case(format!("LexC {} {o}", g::bytes(text.as_bytes())), &format!("lex {text:?}"), nontrivial, known);
 }
@@ -347,7 +344,7 @@ fn pos_case(run: &mut Run, pos: usize, sign: u64, lit: &str) {
     if let Obs::Other(what) = &obs {
         run.note(&format!("unexpected shape for {text:?}: {what}"));
     }
-    let known = if prefix_without_digits(lit) && obs != Obs::Err { Some(KNOWN_PREFIX) } else { None };
+    let known = None;
     let coq = format!("PosC {} {} {} {}", g::n(class), g::n(sign), g::bytes(lit.as_bytes()), obs.coq());
     run.case(coq, &format!("{text:?}"), obs != Obs::Err, known);
 }
@@ -435,6 +432,9 @@ const MALFORMED: &[&str] = &[
     "1e", "1e+", "1e-", ".", "._5", "1._5", "1._5e", "1._e", "._", ".e3", "0x", "0b", "0o", "0b2", "0o8", "0xg",
     "0x_", "0b_", "0o__", "0X_", "1__", "1e_5", "1e_+5", "1e+_5", "1e5_", "5.e", "0b.", "0x.1", "1.e5", "1_.5",
     "0_", "1_e3", "1.5e3_",
+    // regression witnesses of the two fixed findings
+    "0b__", "0O_", "0x_g", "0b_2", "1._1234567890123456789", "1234567890._1234567890", "1._5e3", "12._", "1_._5",
+    "481_6._109763739_0988465E132",
 ];
 
 fn random_literal(rng: &mut Rng) -> String {
